@@ -11,6 +11,31 @@ invalid program per diagnostic site).
   byte level    every byte of every seed replaced by each of BYTE_ALPHABET[tier], truncation at every byte offset
   deviation 2   (thorough) every deviation-1 edit (DEV2_ALPHABET) of every deviation-1 edit, for seeds of at most
                 DEV2_MAXTOK tokens
+  numbers       a deviation-1 edit with a VALUE alphabet: at EVERY numeric-literal position of every seed, every value
+                of the NUMBER sub-alphabet.  thorough: NUM_VALUES = {0, 1, 2, 7, 8, 15, 16, 31, 32, 63, 64, 255, 256,
+                65535, 65536, 2^31-1, 2^31, 2^32-1, 2^32, 2^63-1, 2^63, 2^64-1}, their negations, hex/suffixed
+                spellings of the 2^k boundaries (NUM_HEX), and m-1, m, m+1 (and negations) for every integer literal
+                m of the same seed - so every index / width / count / label position takes the values around every
+                bound the seed declares.  quick: {0, 1, -1, 2^31, 2^32-1, 2^32, 2^64-1} + m-1, m, m+1.
+                The seeds num_*.c (valid and invalid) give numeric positions to range designators, array bounds
+                and designator indices, bit-field widths, case labels and case ranges on every controlling type
+                (signed/unsigned char, short, int, long, long long, _Bool, enum, bit-fields), shift counts, enum
+                values, alignment values, constant division, #line, local object sizes.
+  repetition    every construct family of REP_FAMILIES (macros defined / undefined / redefined, macro parameters and
+                arguments, expansion chains, conditional and include nesting, command-line -D/-U/-I/-include,
+                identifiers / typedefs / tags / enumerators / labels declared per scope, nested and sibling scopes,
+                struct members and nesting, parameters and arguments of every class, declarator nesting,
+                initializer elements / designators / brace depth, string literals, statements nested and in
+                sequence, case labels, parenthesis depth, operator chains and right-nested operands (pending
+                operands on the code generator's stack), nested calls ...) instantiated with n repetitions in one
+                translation unit for every n of REP_N[tier] (quick {1, 2, 6, 7, 8, 9, 16, 17, 64, 100, 128, 129,
+                1000}; thorough 1..130, 255..257, 511..513, 1000), and the two-phase families of REP2_FAMILIES
+                (n1 define/undef pairs or dying scopes, then n2 new definitions) for every pair of REP2_N[tier]:
+                growth, wrap-around, tombstone and rehash boundaries of the internal tables are crossed with every
+                phase relation.  Generated units are valid programs; up to the C11 5.2.4.1 minimum translation
+                limit of the repeated construct a rejection is reported when gcc accepts the unit (second oracle);
+                beyond it a located diagnostic is a correct answer.  Only crash / internal error / hang / missing
+                location / assembler rejection are judged (C17 checks the table as a dictionary).
 Variants are de-duplicated by content.  Each one is run as `chibicc -cc1 -cc1-input v.c -cc1-output v.s v.c` by
 harness/c13_run.c under RLIMIT_CPU 5 s / RLIMIT_AS 2 GB / 60 s wall, observed from outside with ptrace.
 
@@ -67,6 +92,62 @@ DEV2_ALPHABET = ["(", "{", ";", "0", "int", "*"]
 DEV2_MAXTOK = {"quick": 0, "thorough": 12}
 BYTE_ALPHABET = {"quick": [0x00, ord("\\"), ord('"')],
                  "thorough": [0x00, 0x80, 0xff, ord("\\"), ord('"'), ord("'"), ord("\n")]}
+
+# NUMBER sub-alphabet: a deviation-1 edit that replaces one numeric literal (pp-number token) by a value.  Applied
+# at EVERY numeric position of EVERY seed.  Besides the fixed values, every position also receives m-1, m, m+1 for
+# every integer literal m that occurs anywhere in the same seed ("relative" values: a designator index, a bit-field
+# width, a shift count ... then takes the values around the declared bound / width / size that the seed itself
+# spells out, without the check having to know which literal is the bound of which object).
+NUM_VALUES = [0, 1, 2, 7, 8, 15, 16, 31, 32, 63, 64, 255, 256, 65535, 65536, 2147483647, 2147483648, 4294967295,
+              4294967296, 9223372036854775807, 9223372036854775808, 18446744073709551615]
+NUM_HEX = ["0x7fffffff", "0x80000000", "0xffffffff", "0x100000000", "0x7fffffffffffffff", "0x8000000000000000",
+           "0xffffffffffffffff", "2147483648u", "4294967295u", "18446744073709551615ul", "9223372036854775807l"]
+NUM_QUICK = [0, 1, 2147483648, 4294967295, 4294967296, 18446744073709551615]     # + relative values, + "-1"
+
+
+def num_alphabet(tier, seed_values):
+    """-> ordered list of replacement spellings (bytes) for one seed"""
+    rel = sorted(set(v + d for v in seed_values for d in (-1, 0, 1) if v + d >= 0))
+    if tier == "quick":
+        vals = [str(v) for v in NUM_QUICK] + ["-1"] + [str(v) for v in rel]
+    else:
+        allv = sorted(set(NUM_VALUES + rel))
+        vals = [str(v) for v in allv] + ["-" + str(v) for v in allv if v] + NUM_HEX
+    out, seen = [], set()
+    for v in vals:
+        if v not in seen:
+            seen.add(v)
+            out.append(v.encode())
+    return out
+
+
+_INTLIT = re.compile(rb"^(0[xX][0-9a-fA-F]+|0[bB][01]+|[0-9]+)[uUlL]*$")
+
+
+def int_value(tok):
+    """value of an integer literal token, None for floating/ill-formed pp-numbers"""
+    m = _INTLIT.match(tok)
+    if not m:
+        return None
+    t = m.group(1).decode().lower()
+    try:
+        if t.startswith(("0x", "0b")):
+            return int(t, 0)
+        return int(t, 8) if len(t) > 1 and t[0] == "0" else int(t)
+    except ValueError:
+        return None
+
+
+def is_number(tok):
+    return re.match(rb"^\.?[0-9]", tok) is not None
+
+
+# REPETITION dimension: every family of REP_FAMILIES (one construct repeated / nested N times in one translation
+# unit) for every N of REP_N[tier]; two-phase families of REP2_FAMILIES for every pair of REP2_N[tier].
+REP_N = {"quick": [1, 2, 6, 7, 8, 9, 16, 17, 64, 100, 128, 129, 1000],
+         "thorough": list(range(1, 131)) + [255, 256, 257, 511, 512, 513, 1000]}
+REP2_N = {"quick": [1, 2, 16, 17, 64, 100, 128, 129, 1000],
+          "thorough": [1, 2, 8, 16, 17, 32, 33, 40, 48, 64, 65, 85, 100, 128, 129, 256, 1000]}
 
 # option sets applied to every seed (deviation 0)
 OPTION_SETS = [[], ["-E"], ["-fpic"], ["-fcommon"], ["-fno-common"], ["-DX=1", "-DF(x)=x"], ["-Ua", "-I."],
@@ -167,6 +248,14 @@ def gen_variants(src, spec):
                 continue
             for e2, t2, w2 in edits1(t1, w1, alpha):
                 yield e1 + "+" + e2, join(t2, w2)
+    elif kind == "num":
+        toks, ws = lex(src)
+        pos = [i for i, t in enumerate(toks) if is_number(t)]
+        alpha = num_alphabet(spec[1], [v for v in (int_value(toks[i]) for i in pos) if v is not None])
+        for i in pos:
+            for a in alpha:
+                if a != toks[i]:
+                    yield "num%dv%s" % (i, a.decode().replace("-", "m")), join(toks[:i] + [_sp(a)] + toks[i + 1:], ws)
     elif kind == "byte":
         for i in range(len(src)):
             for b in BYTE_ALPHABET[spec[1]]:
@@ -179,7 +268,312 @@ def gen_variants(src, spec):
 
 
 def edit_class(vid):
+    if vid.startswith("num"):
+        return "num"
+    if vid.startswith("n") and vid[1:2].isdigit():
+        return "rep"
     return re.sub(r"[0-9.]+", "", vid.split("+")[0]) + ("+2" if "+" in vid else "")
+
+
+# ---------------------------------------------------------------------------------------------------------
+# REPETITION dimension: generators of translation units in which one construct is repeated / nested n times.
+# Every generated unit is meant to be a valid program; `limit` is the C11 5.2.4.1 minimum translation limit that
+# applies to the repeated construct (None: no limit applies; 0: the unit is accepted by compilers but not strictly
+# conforming, never judged for rejection).  A unit with n <= limit that chibicc rejects is reported only when gcc
+# accepts the same unit (two oracles); beyond the limit a located diagnostic is a correct answer.
+
+def _r(n, f, sep=""):
+    return sep.join(f(i) for i in range(n))
+
+
+def _fn(body, ret="r", pre=""):
+    return "%sint f(int x) {\n  int r = 0;\n%s\n  return %s;\n}\n" % (pre, body, ret)
+
+
+def _nest(n, opn, core, cls):
+    return opn * n + core + cls * n
+
+
+REP_FAMILIES = [
+    # ---- preprocessor tables -------------------------------------------------------------------------------
+    ("pp_define", 4095, lambda n: _r(n, lambda i: "#define M%d %d\n" % (i, i)) +
+        "int zz;\nint y[1 + M0 + M%d];\nint f(void) { return zz + sizeof y; }\n" % (n - 1)),
+    ("pp_define_undef_all", 4095, lambda n: _r(n, lambda i: "#define M%d %d\n" % (i, i)) +
+        _r(n, lambda i: "#undef M%d\n" % i) + "#ifdef M0\n#error M0\n#endif\n#define K 3\nint M0 = K, zz;\n"),
+    ("pp_define_undef_pairs", 4095, lambda n: _r(n, lambda i: "#define M%d %d\nint a%d = M%d;\n#undef M%d\n" % (i, i, i, i, i)) +
+        "#define K 3\nint zz = K;\n"),
+    ("pp_define_undef_same", None, lambda n: _r(n, lambda i: "#define M %d\nint a%d = M;\n#undef M\n" % (i, i)) +
+        "#define M 3\nint zz = M;\n"),
+    ("pp_undef_undefined", None, lambda n: _r(n, lambda i: "#undef U%d\n" % i) + "int zz;\n"),
+    ("pp_redefine_same", None, lambda n: "#define M 1\n" * n + "int zz = M;\n"),
+    ("pp_redefine_diff", 0, lambda n: _r(n, lambda i: "#define M %d\n" % i) + "int zz = M;\n"),
+    ("pp_funclike_define", 4095, lambda n: _r(n, lambda i: "#define F%d(a, b) ((a) + (b) + %d)\n" % (i, i)) +
+        "int zz = F0(1, 2) + F%d(3, 4);\n" % (n - 1)),
+    ("pp_params", 127, lambda n: "#define F(%s) (p0 + p%d)\nint zz = F(%s);\n"
+        % (_r(n, lambda i: "p%d" % i, ", "), n - 1, _r(n, str, ", "))),
+    ("pp_variadic_args", 127, lambda n: "#define V(...) g(__VA_ARGS__)\nint g(int, ...);\nint f(void) { return V(0, %s); }\n"
+        % _r(n, str, ", ")),
+    ("pp_stringize_args", 300, lambda n: "#define S(...) #__VA_ARGS__\nchar *s = S(%s);\n" % _r(n, lambda i: "a%d" % i, ", ")),
+    ("pp_nested_invocation", 63, lambda n: "#define I(v) (v)\nint zz = %s;\n" % _nest(n, "I(", "1", ")")),
+    ("pp_expansion_chain", None, lambda n: "#define C0 1\n" + _r(n, lambda i: "#define C%d C%d\n" % (i + 1, i)) +
+        "int zz = C%d;\n" % n),
+    ("pp_self_reference_cycle", None, lambda n: _r(n, lambda i: "#define R%d R%d\n" % (i, (i + 1) % n)) + "int R0 = 1;\n"),
+    ("pp_paste_many", 4095, lambda n: "#define P(a, b) a##b\n" + _r(n, lambda i: "int P(v, %d) = P(%d, %d);\n" % (i, i, i))),
+    ("pp_if_nested", 63, lambda n: "#if 1\n" * n + "int zz;\n" + "#endif\n" * n),
+    ("pp_if_nested_skipped", 62, lambda n: "#if 0\n" + "#if 1\n" * n + "int bad = ;\n" + "#endif\n" * n + "#endif\nint zz;\n"),
+    ("pp_ifdef_else_nested", 63, lambda n: _r(n, lambda i: "#ifdef U%d\n#else\n" % i) + "int zz;\n" + "#endif\n" * n),
+    ("pp_elif_chain", None, lambda n: "#if 0\n" + "#elif 0\n" * n + "#else\nint zz;\n#endif\n"),
+    ("pp_if_sequence", None, lambda n: _r(n, lambda i: "#if %d == %d\nint a%d;\n#endif\n" % (i, i, i))),
+    ("pp_if_paren_depth", 63, lambda n: "#if %s\nint zz;\n#endif\n" % _nest(n, "(", "1", ")")),
+    ("pp_if_operator_chain", None, lambda n: "#if %s\nint zz;\n#endif\n" % _r(n, lambda i: "1", " + ")),
+    ("pp_if_cond_chain", None, lambda n: "#if %s 1\nint zz;\n#endif\n" % _r(n, lambda i: "0 ? 0 :", " ")),
+    ("pp_if_defined_many", None, lambda n: "#if %s\n#error x\n#endif\nint zz;\n" % _r(n, lambda i: "defined(U%d)" % i, " || ")),
+    ("pp_include_depth", 15, lambda n: "#define C13_DEPTH %d\n#include \"c13_nest.h\"\nint zz = __COUNTER__;\n" % n),
+    ("pp_include_repeat_guarded", None, lambda n: "#include \"c13_inc.h\"\n" * n + "int zz = INC_VAL;\n"),
+    ("pp_include_repeat_plain", None, lambda n: "#include \"c13_rep.h\"\n" * n + "int zz;\n"),
+    ("pp_include_angle_repeat", None, lambda n: "#include <stddef.h>\n" * n + "size_t zz;\n"),
+    ("pp_line_directives", None, lambda n: _r(n, lambda i: "#line %d\nint a%d;\n" % (i + 1, i))),
+    ("pp_line_splices", None, lambda n: "int \\\n" + "\\\n" * n + "zz;\n"),
+    ("pp_blank_lines", None, lambda n: "\n" * n + "int zz;\n"),
+    ("pp_comments", None, lambda n: "/* c */ " * n + "int zz;\n" + "// c\n" * n),
+    ("pp_long_comment", None, lambda n: "/*" + "c" * n + "*/ int zz;\n"),
+    ("pp_long_identifier", None, lambda n: "int %s = 1;\nint f(void) { return %s; }\n" % ("i" * n, "i" * n)),
+    ("pp_long_line", None, lambda n: "int zz = 0" + " + 0" * n + ";\n"),
+    ("pp_long_string", 4095, lambda n: "char s[] = \"%s\";\n" % ("a" * n)),
+    ("pp_string_concat", 4095, lambda n: "char s[] = %s;\n" % ("\"a\" " * n)),
+    ("pp_wide_string_concat", 4095, lambda n: "int s[] = %s;\n" % ("L\"a\" " * n)),
+    ("pp_string_escapes", 4095, lambda n: "char s[] = \"%s\";\n" % ("\\x41\\101\\n" * n)),
+    ("pp_counter", None, lambda n: _r(n, lambda i: "int a%d = __COUNTER__ + __LINE__;\n" % i)),
+    ("pp_pragma_directives", None, lambda n: "#pragma foo\n" * n + "#pragma once\n" * n + "int zz;\n"),
+    # ---- command line ---------------------------------------------------------------------------------------
+    ("opt_D", None, lambda n: ("int zz = M0 + M%d;\n" % (n - 1), ["-DM%d=%d" % (i, i) for i in range(n)])),
+    ("opt_U", None, lambda n: ("int zz;\n", ["-UM%d" % i for i in range(n)])),
+    ("opt_D_then_U", None, lambda n: ("#ifdef M0\n#error M0\n#endif\n#define K 2\nint zz = K;\n",
+        ["-DM%d=%d" % (i, i) for i in range(n)] + ["-UM%d" % i for i in range(n)])),
+    ("opt_I", None, lambda n: ("#include <c13_inc.h>\nint zz = INC_VAL;\n", ["-Id%d" % i for i in range(n)] + ["-I."])),
+    ("opt_include", None, lambda n: ("int zz;\n", [a for i in range(n) for a in ("-include", "c13_rep.h")])),
+    # ---- declarations: scope and tag tables --------------------------------------------------------------
+    ("decl_globals", 4095, lambda n: _r(n, lambda i: "int g%d;\n" % i) + "int f(void) { return g0 + g%d; }\n" % (n - 1)),
+    ("decl_globals_initialized", 4095, lambda n: _r(n, lambda i: "int g%d = %d;\n" % (i, i)) +
+        "int f(void) { return g0 + g%d; }\n" % (n - 1)),
+    ("decl_tentative_repeated", None, lambda n: "int g;\n" * n + "extern int g;\n" * n + "int f(void) { return g; }\n"),
+    ("decl_declarator_list", 4095, lambda n: "int %s;\nint f(void) { return a0 + a%d; }\n" % (_r(n, lambda i: "a%d" % i, ", "), n - 1)),
+    ("decl_functions", 4095, lambda n: _r(n, lambda i: "int f%d(void) { return %d; }\n" % (i, i)) +
+        "int f(void) { return f0() + f%d(); }\n" % (n - 1)),
+    ("decl_prototype_repeated", None, lambda n: "int f(int);\n" * n + "int f(int x) { return x; }\n"),
+    ("decl_static_functions", 4095, lambda n: _r(n, lambda i: "static int f%d(void) { return %d; }\n" % (i, i)) +
+        "int f(void) { return f%d(); }\n" % (n - 1)),
+    ("decl_locals", 511, lambda n: _fn(_r(n, lambda i: "  int v%d = %d;\n" % (i, i)), "r + v0 + v%d" % (n - 1))),
+    ("decl_locals_long_double", 511, lambda n: _fn(_r(n, lambda i: "  long double v%d = %d;\n" % (i, i)), "r + (int)(v0 + v%d)" % (n - 1))),
+    ("decl_static_locals", 511, lambda n: _fn(_r(n, lambda i: "  static int v%d = %d;\n" % (i, i)), "r + v0 + v%d" % (n - 1))),
+    ("decl_local_arrays", 511, lambda n: _fn(_r(n, lambda i: "  char v%d[%d] = {1};\n" % (i, i + 1)), "r + v0[0] + v%d[0]" % (n - 1))),
+    ("decl_typedefs", 4095, lambda n: _r(n, lambda i: "typedef int T%d;\n" % i) + "T0 a;\nT%d b;\n" % (n - 1)),
+    ("decl_typedef_chain", None, lambda n: "typedef int T0;\n" + _r(n, lambda i: "typedef T%d T%d;\n" % (i, i + 1)) + "T%d zz;\n" % n),
+    ("decl_typedef_repeated", None, lambda n: "typedef int T;\n" * n + "T zz;\n"),
+    ("decl_local_typedefs", 511, lambda n: _fn(_r(n, lambda i: "  typedef int T%d;\n" % i) + "  T%d v = 1;\n" % (n - 1), "r + v")),
+    ("decl_struct_tags", 4095, lambda n: _r(n, lambda i: "struct S%d { int x; };\n" % i) + "struct S0 a;\nstruct S%d b;\n" % (n - 1)),
+    ("decl_struct_tag_forward_repeated", None, lambda n: "struct S;\n" * n + "struct S { int x; } zz;\n"),
+    ("decl_union_enum_tags", 4095, lambda n: _r(n, lambda i: "union U%d { int x; };\nenum E%d { K%d };\n" % (i, i, i)) +
+        "union U%d a;\nenum E%d b = K%d;\n" % (n - 1, n - 1, n - 1)),
+    ("decl_local_struct_tags", 511, lambda n: _fn(_r(n, lambda i: "  struct S%d { int x; } s%d = {%d};\n" % (i, i, i)), "r + s%d.x" % (n - 1))),
+    ("decl_enum_constants", 1023, lambda n: "enum E { %s };\nint zz = E0 + E%d;\n" % (_r(n, lambda i: "E%d" % i, ", "), n - 1)),
+    ("decl_enum_constants_valued", 1023, lambda n: "enum E { %s };\nint zz = E%d;\n" % (_r(n, lambda i: "E%d = %d" % (i, 2 * i), ", "), n - 1)),
+    ("decl_struct_members", 1023, lambda n: "struct S { %s } s;\nint f(void) { return s.m0 + s.m%d; }\n"
+        % (_r(n, lambda i: "int m%d;" % i, " "), n - 1)),
+    ("decl_struct_members_mixed", 1023, lambda n: "struct S { %s } s;\nint f(void) { return s.m0 + s.m%d; }\n"
+        % (_r(n, lambda i: "%s m%d;" % (("char", "long", "short", "double")[i % 4], i), " "), n - 1)),
+    ("decl_union_members", 1023, lambda n: "union U { %s } u;\nint f(void) { return u.m0 + u.m%d; }\n"
+        % (_r(n, lambda i: "int m%d;" % i, " "), n - 1)),
+    ("decl_bitfield_members", 1023, lambda n: "struct S { %s } s;\nint f(void) { s.m%d = 1; return s.m0 + s.m%d; }\n"
+        % (_r(n, lambda i: "int m%d : %d;" % (i, i % 31 + 1), " "), n - 1, n - 1)),
+    ("decl_struct_nested", 63, lambda n: "%sint x;%s\nint f(void) { return s%s.x; }\n"
+        % ("struct { " * n, " } s;" * n, ".s" * (n - 1))),
+    ("decl_anonymous_struct_nested", 63, lambda n: "struct S { %sint x;%s } s;\nint f(void) { return s.x; }\n"
+        % ("struct { " * n, " };" * n)),
+    ("decl_anonymous_members", 1023, lambda n: "struct S { %s } s;\nint f(void) { return s.m%d; }\n"
+        % (_r(n, lambda i: "struct { int m%d; };" % i, " "), n - 1)),
+    ("decl_params", 127, lambda n: "int g(%s) { return p0 + p%d; }\nint f(void) { return g(%s); }\n"
+        % (_r(n, lambda i: "int p%d" % i, ", "), n - 1, _r(n, str, ", "))),
+    ("decl_params_double", 127, lambda n: "double g(%s) { return p0 + p%d; }\ndouble f(void) { return g(%s); }\n"
+        % (_r(n, lambda i: "double p%d" % i, ", "), n - 1, _r(n, lambda i: "%d.5" % i, ", "))),
+    ("decl_params_mixed", 127, lambda n: "long g(%s) { return p0 + p%d; }\nlong f(void) { return g(%s); }\n"
+        % (_r(n, lambda i: "%s p%d" % (("char", "double", "long", "float", "short", "long double")[i % 6], i), ", "), n - 1,
+           _r(n, str, ", "))),
+    ("decl_params_struct", 127, lambda n: "struct P { long a, b, c; };\nlong g(%s) { return p0.a + p%d.c; }\n"
+        "struct P v;\nlong f(void) { return g(%s); }\n"
+        % (_r(n, lambda i: "struct P p%d" % i, ", "), n - 1, _r(n, lambda i: "v", ", "))),
+    ("decl_params_small_struct", 127, lambda n: "struct P { int a; float b; };\nint g(%s) { return p0.a + p%d.a; }\n"
+        "struct P v;\nint f(void) { return g(%s); }\n"
+        % (_r(n, lambda i: "struct P p%d" % i, ", "), n - 1, _r(n, lambda i: "v", ", "))),
+    ("decl_variadic_call_args", 127, lambda n: "int g(int, ...);\nint f(void) { return g(%d, %s); }\n" % (n, _r(n, lambda i: "%d, %d.0" % (i, i), ", "))),
+    ("decl_variadic_definition", 127, lambda n: "#include <stdarg.h>\nint g(int c, ...) {\n  va_list ap;\n  va_start(ap, c);\n  int r = 0;\n%s  va_end(ap);\n  return r;\n}\n"
+        % _r(n, lambda i: "  r += va_arg(ap, %s);\n" % ("int", "double", "long")[i % 3])),
+    ("decl_pointer_depth", 12, lambda n: "int %sp;\nint f(int %sq) { return %sq + (p != 0); }\n" % ("*" * n, "*" * n, "*" * n)),
+    ("decl_array_dimensions", 12, lambda n: "int a%s;\nint f(void) { return a%s + sizeof a; }\n" % ("[1]" * n, "[0]" * n)),
+    ("decl_paren_declarator", 12, lambda n: "int %s;\nint f(void) { return zz; }\n" % _nest(n, "(", "zz", ")")),
+    ("decl_fnptr_nested", 12, lambda n: "int %s;\n" % _nest(n, "(*", "fp", ")(void)")),
+    ("decl_abstract_declarator_nested", 12, lambda n: "int zz = sizeof(int %s);\n" % _nest(n, "(*", "", ")[2]")),
+    ("decl_qualifiers_repeated", None, lambda n: "const " * n + "volatile " * n + "int zz = 1;\n"),
+    ("decl_attributes_repeated", None, lambda n: "struct %s S { char a; int b; } zz;\n" % ("__attribute__((packed)) " * n)),
+    ("decl_alignas_repeated", None, lambda n: "_Alignas(8) " * n + "int zz;\n"),
+    ("decl_typeof_nested", 63, lambda n: "int zz;\n%s yy;\n" % _nest(n, "typeof(", "zz", ")")),
+    ("decl_string_literals", 4095, lambda n: _r(n, lambda i: "char *s%d = \"str%d\";\n" % (i, i))),
+    ("decl_string_literals_local", 4095, lambda n: "int g(char *);\n" + _fn(_r(n, lambda i: "  r += g(\"str%d\");\n" % i))),
+    ("decl_compound_literals", 4095, lambda n: _r(n, lambda i: "int *p%d = (int[]){%d, %d};\n" % (i, i, i))),
+    ("decl_compound_literals_local", 4095, lambda n: _fn(_r(n, lambda i: "  r += ((int[]){%d, x})[1];\n" % i))),
+    ("decl_labels", 4095, lambda n: _fn("  goto l%d;\n" % (n - 1) + _r(n, lambda i: "l%d: r++;\n" % i))),
+    ("decl_gotos", 4095, lambda n: _fn(_r(n, lambda i: "  if (x == %d) goto out;\n" % i) + "out: r++;")),
+    ("decl_label_addresses", 4095, lambda n: _fn("  void *t[] = {%s};\n  goto *t[x];\n" % _r(n, lambda i: "&&l%d" % i, ", ") +
+        _r(n, lambda i: "l%d: r++;\n" % i))),
+    ("decl_vlas", 511, lambda n: _fn(_r(n, lambda i: "  int v%d[x + %d]; v%d[0] = %d; r += v%d[0] + sizeof v%d;\n" % (i, i + 1, i, i, i, i)))),
+    ("decl_alloca_calls", None, lambda n: _fn(_r(n, lambda i: "  { char *p = alloca(x + %d); p[0] = 1; r += p[0]; }\n" % (i + 1)),
+                                                pre="void *alloca(unsigned long);\n")),
+    # ---- initializers --------------------------------------------------------------------------------------
+    ("init_array_elements", 4095, lambda n: "int a[] = {%s};\nint b[%d] = {%s};\n" % (_r(n, str, ", "), n, _r(n, str, ", "))),
+    ("init_array_designators", 4095, lambda n: "int a[%d] = {%s};\n" % (n, _r(n, lambda i: "[%d] = %d" % (n - 1 - i, i), ", "))),
+    ("init_array_range", None, lambda n: "int a[%d] = {[0 ... %d] = 1};\nint f(void) { int b[%d] = {[0 ... %d] = 2}; return b[0]; }\n" % (n, n - 1, n, n - 1)),
+    ("init_array_dimensions", 12, lambda n: "int a%s = %s;\n" % ("[1]" * n, _nest(n, "{", "1", "}"))),
+    ("init_struct_nested_braces", 63, lambda n: "%sint x;%s } s = %s;\n" % ("struct { " * n, " } s;" * (n - 1), _nest(n, "{", "1", "}"))),
+    ("init_struct_members", 1023, lambda n: "struct S { %s } s = {%s};\n" % (_r(n, lambda i: "int m%d;" % i, " "), _r(n, str, ", "))),
+    ("init_struct_member_designators", 1023, lambda n: "struct S { %s } s = {%s};\n"
+        % (_r(n, lambda i: "int m%d;" % i, " "), _r(n, lambda i: ".m%d = %d" % (n - 1 - i, i), ", "))),
+    ("init_string_array", 4095, lambda n: "char s[%d] = \"%s\";\nchar t[%d] = \"%s\";\n" % (n + 1, "a" * n, n, "a" * n)),
+    ("init_local_array_zero_fill", None, lambda n: _fn("  int a[%d] = {1};\n  struct { char c[%d]; } s = {{2}};\n  r = a[x] + s.c[x];" % (n, n))),
+    ("init_local_array_elements", 4095, lambda n: _fn("  int a[] = {%s};\n  r = a[x];" % _r(n, lambda i: "x + %d" % i, ", "))),
+    ("init_local_struct_members", 1023, lambda n: _fn("  struct { %s } s = {%s};\n  r = s.m%d;"
+        % (_r(n, lambda i: "int m%d;" % i, " "), _r(n, lambda i: "x + %d" % i, ", "), n - 1))),
+    ("init_global_pointer_relocs", 4095, lambda n: "int g[%d];\nint *p[] = {%s};\n" % (n, _r(n, lambda i: "&g[%d]" % i, ", "))),
+    # ---- statements -------------------------------------------------------------------------------------------
+    ("stmt_blocks_nested", 127, lambda n: _fn("  " + _nest(n, "{ ", "r = x;", " }"))),
+    ("stmt_blocks_nested_shadowing", 127, lambda n: _fn("  " + _r(n, lambda i: "{ int x%d = r + %d; int x = x%d; " % (i, i, i)) + "r = x;" + " }" * n)),
+    ("stmt_blocks_sibling", None, lambda n: _fn(_r(n, lambda i: "  { int a = %d; r += a; }\n" % i))),
+    ("stmt_statements", None, lambda n: _fn("  r += x;\n" * n)),
+    ("stmt_null_statements", None, lambda n: _fn("  " + ";" * n)),
+    ("stmt_if_nested", 127, lambda n: _fn("  " + _r(n, lambda i: "if (x > %d) { " % i) + "r = 1;" + " }" * n)),
+    ("stmt_if_else_nested", 127, lambda n: _fn("  " + _r(n, lambda i: "if (x > %d) " % i) + "r = 1;" + " else r++;" * n)),
+    ("stmt_else_if_chain", None, lambda n: _fn("  if (x == -1) r = 0;\n" + _r(n, lambda i: "  else if (x == %d) r = %d;\n" % (i, i)))),
+    ("stmt_for_nested", 127, lambda n: _fn("  " + _r(n, lambda i: "for (int i%d = 0; i%d < x; i%d++) { if (i%d == 3) break; if (i%d == 2) continue; " % ((i,) * 5)) +
+        "r++;" + " }" * n)),
+    ("stmt_while_nested", 127, lambda n: _fn("  " + "while (x--) { if (r) break; " * n + "r++;" + " }" * n)),
+    ("stmt_do_nested", 127, lambda n: _fn("  " + "do { if (r) continue; " * n + "r++;" + " } while (x--);" * n)),
+    ("stmt_loops_sibling", None, lambda n: _fn(_r(n, lambda i: "  for (int i = 0; i < %d; i++) { if (i == x) break; r++; }\n" % i))),
+    ("stmt_switch_nested", 127, lambda n: _fn("  " + _r(n, lambda i: "switch (x + %d) { case %d: r++; break; default: " % (i, i)) + "r = 1;" + " }" * n)),
+    ("stmt_switch_sibling", None, lambda n: _fn(_r(n, lambda i: "  switch (x) { case %d: r += %d; break; default: r--; }\n" % (i, i)))),
+    ("stmt_case_labels", 1023, lambda n: _fn("  switch (x) {\n" + _r(n, lambda i: "  case %d: r += %d; break;\n" % (i, i)) + "  default: r = -1;\n  }")),
+    ("stmt_case_labels_stacked", 1023, lambda n: _fn("  switch (x) {\n  " + _r(n, lambda i: "case %d: " % (3 * i)) + "r = 1; break;\n  }")),
+    ("stmt_case_ranges", 1023, lambda n: _fn("  switch (x) {\n" + _r(n, lambda i: "  case %d ... %d: r += %d; break;\n" % (4 * i, 4 * i + 2, i)) + "  }")),
+    ("stmt_case_labels_unsigned_long", 1023, lambda n: "int f(unsigned long x) {\n  int r = 0;\n  switch (x) {\n" +
+        _r(n, lambda i: "  case %dUL: r += %d; break;\n" % (4294967296 * i + i, i)) + "  }\n  return r;\n}\n"),
+    ("stmt_returns", None, lambda n: _fn(_r(n, lambda i: "  if (x == %d) return %d;\n" % (i, i)))),
+    ("stmt_expression_statements_nested", 63, lambda n: _fn("  r = " + "({ " * n + "x;" + " });" * n)),
+    ("stmt_asm_statements", None, lambda n: _fn("  asm(\"nop\");\n" * n)),
+    # ---- expressions: nesting and pending-operand depth -------------------------------------------------------
+    ("expr_parens", 63, lambda n: _fn("  r = " + _nest(n, "(", "x", ")") + ";")),
+    ("expr_parens_global_initializer", 63, lambda n: "int zz = " + _nest(n, "(", "1", ")") + ";\n"),
+    ("expr_left_chain_add", None, lambda n: _fn("  r = x" + " + x" * n + ";")),
+    ("expr_left_chain_mixed", None, lambda n: _fn("  r = x" + _r(n, lambda i: " %s (x | 1)" % ("+", "-", "*", "/", "%", "&", "|", "^", "<<", ">>", "<", "==", "!=", ">=")[i % 14]) + ";")),
+    ("expr_right_nested_add", 63, lambda n: _fn("  r = " + "x + (" * n + "x" + ")" * n + ";")),
+    ("expr_right_nested_sub_calls", 63, lambda n: "int g(int);\n" + _fn("  r = " + "g(x) - (" * n + "x" + ")" * n + ";")),
+    ("expr_left_nested_add", 63, lambda n: _fn("  r = " + "(" * n + "x" + " + x)" * n + ";")),
+    ("expr_constant_chain_global", None, lambda n: "int zz = 1" + " + 1" * n + ";\nlong yy = 1" + " * 1L" * n + ";\n"),
+    ("expr_constant_right_nested_global", 63, lambda n: "int zz = " + "1 + (" * n + "1" + ")" * n + ";\n"),
+    ("expr_logand_chain", None, lambda n: _fn("  r = x" + _r(n, lambda i: " && x != %d" % i) + ";")),
+    ("expr_logor_chain", None, lambda n: _fn("  r = x" + _r(n, lambda i: " || x == %d" % i) + ";")),
+    ("expr_comma_chain", None, lambda n: _fn("  r = (x" + ", x + 1" * n + ");")),
+    ("expr_assign_chain", None, lambda n: _fn("  int a = 0;\n  " + "a = r = " * n + "x;")),
+    ("expr_compound_assign_chain", None, lambda n: _fn("  " + "r += " * n + "x;")),
+    ("expr_cond_chain", None, lambda n: _fn("  r = " + _r(n, lambda i: "x == %d ? %d : " % (i, i)) + "-1;")),
+    ("expr_cond_nested_middle", 63, lambda n: _fn("  r = " + "x ? " * n + "1" + " : 2" * n + ";")),
+    ("expr_unary_not", None, lambda n: _fn("  r = " + "!" * n + "x;")),
+    ("expr_unary_bitnot_neg", None, lambda n: _fn("  r = " + "~-" * n + "x;")),
+    ("expr_unary_deref_addr", None, lambda n: _fn("  r = " + "*&" * n + "x;")),
+    ("expr_deref_chain", 12, lambda n: "int f(int %sp) { return %sp; }\n" % ("*" * n, "*" * n)),
+    ("expr_cast_chain", None, lambda n: _fn("  r = " + _r(n, lambda i: "(%s)" % ("long", "char", "unsigned", "double", "short", "float", "_Bool", "long double")[i % 8]) + "x;")),
+    ("expr_sizeof_nested", 63, lambda n: _fn("  r = " + "sizeof(" * n + "x" + ")" * n + ";")),
+    ("expr_preinc_sequence", None, lambda n: _fn("  r = " + _r(n, lambda i: "++x", " + ") + " + x--;")),
+    ("expr_call_nested", 63, lambda n: "int g(int);\n" + _fn("  r = " + _nest(n, "g(", "x", ")") + ";")),
+    ("expr_call_nested_pending_args", 63, lambda n: "int g(int, int, int);\n" + _fn("  r = " + "g(x, 1, " * n + "x" + ")" * n + ";")),
+    ("expr_call_nested_first_arg", 63, lambda n: "int g(int, int);\n" + _fn("  r = " + "g(" * n + "x" + ", 1)" * n + ";")),
+    ("expr_call_nested_double", 63, lambda n: "double g(double, double);\n" + _fn("  r = " + "g(1.5, " * n + "x" + ")" * n + ";")),
+    ("expr_call_nested_struct", 63, lambda n: "struct P { long a, b, c; };\nstruct P g(struct P);\nstruct P v;\n" + _fn("  r = " + _nest(n, "g(", "v", ")") + ".a;")),
+    ("expr_call_sequence", None, lambda n: "int g(int);\n" + _fn("  r = 0" + _r(n, lambda i: " + g(%d)" % i) + ";")),
+    ("expr_call_many_stack_args", 127, lambda n: "int g(%s);\n" % _r(n + 6, lambda i: "int", ", ") + _fn("  r = g(%s);" % _r(n + 6, lambda i: "x + %d" % i, ", "))),
+    ("expr_subscript_nested", 63, lambda n: "int a[2];\n" + _fn("  r = " + "a[" * n + "x" + "]" * n + ";")),
+    ("expr_subscript_chain", 12, lambda n: "int a%s;\n" % ("[2]" * n) + _fn("  r = a" + "[x]" * n + ";")),
+    ("expr_member_chain", 63, lambda n: "%sint x;%s\n" % ("struct { " * n, " } s;" * n) + _fn("  r = s" + ".s" * (n - 1) + ".x;")),
+    ("expr_arrow_chain", None, lambda n: "struct L { struct L *next; int v; } *h;\n" + _fn("  r = h" + "->next" * n + "->v;")),
+    ("expr_pointer_arith_chain", None, lambda n: "int *p;\n" + _fn("  r = *(p" + _r(n, lambda i: " + %d" % i) + " - x);")),
+    ("expr_float_constants", None, lambda n: "double f(double x) { return x" + _r(n, lambda i: " + %d.25" % i) + "; }\n"),
+    ("expr_float_single_constants", None, lambda n: "float f(float x) { return x" + _r(n, lambda i: " * %d.5f" % (i + 1)) + "; }\n"),
+    ("expr_long_double_chain", None, lambda n: "long double f(long double x) { return x" + _r(n, lambda i: " + %d.5L" % i) + "; }\n"),
+    ("expr_float_right_nested", 63, lambda n: "double f(double x) { return " + "x * (" * n + "x" + ")" * n + "; }\n"),
+    ("expr_long_double_right_nested", 63, lambda n: "long double f(long double x) { return " + "x - (" * n + "x" + ")" * n + "; }\n"),
+    ("expr_generic_nested", 63, lambda n: _fn("  r = " + "_Generic(" * n + "x" + ", int: x, default: 0)" * n + ";")),
+    ("expr_generic_associations", None, lambda n: "%s\n" % _r(n, lambda i: "struct G%d { int x; };" % i, " ") +
+        _fn("  r = _Generic(x, %s, int: 1);" % _r(n, lambda i: "struct G%d: 0" % i, ", "))),
+    ("expr_compound_literal_nested", 63, lambda n: _fn("  r = " + "(int){" * n + "x" + "}" * n + ";")),
+    ("expr_bitfield_ops", None, lambda n: "struct B { int a : 5; unsigned b : 27; long c : 40; } s;\n" +
+        _fn(_r(n, lambda i: "  s.%s %s x;\n" % ("abc"[i % 3], ("+=", "=", "<<=", "|=", "-=")[i % 5])) + "  r = s.a++ + --s.b;")),
+    ("expr_atomic_ops", None, lambda n: "_Atomic int a;\n" + _fn(_r(n, lambda i: "  a %s x;\n" % ("+=", "-=", "*=", "|=")[i % 4]) + "  r = a++;")),
+    ("expr_struct_assign_sequence", None, lambda n: "struct P { char c[%d]; } a, b;\n" % n + _fn("  a = b;\n  b = a;\n  r = a.c[x];")),
+    ("expr_struct_sizes_pass_return", None, lambda n: "struct P { char c[%d]; };\nstruct P g(struct P);\nstruct P h(struct P p) { p.c[0]++; return p; }\n" % n +
+        _fn("  struct P v = {{1}};\n  r = g(h(v)).c[0];")),
+]
+
+# two-phase families: n1 repetitions of a deleting/aging phase, then n2 repetitions of an inserting phase, then uses
+REP2_FAMILIES = [
+    ("pp_churn_same_name", None, lambda a, b: _r(a, lambda i: "#define X %d\nint a%d = X;\n#undef X\n" % (i, i)) +
+        _r(b, lambda i: "#define N%d %d\n" % (i, i)) + "int zz, yy;\nint f(void) { return zz + yy + N0 + N%d; }\n" % (b - 1)),
+    ("pp_churn_distinct_names", None, lambda a, b: _r(a, lambda i: "#define X%d %d\nint a%d = X%d;\n#undef X%d\n" % (i, i, i, i, i)) +
+        _r(b, lambda i: "#define N%d %d\n" % (i, i)) + "int zz, yy;\nint f(void) { return zz + yy + N0 + N%d; }\n" % (b - 1)),
+    ("pp_define_all_undef_all_define", None, lambda a, b: _r(a, lambda i: "#define X%d %d\n" % (i, i)) + _r(a, lambda i: "#undef X%d\n" % i) +
+        _r(b, lambda i: "#define N%d %d\n" % (i, i)) + "int zz, yy;\nint f(void) { return zz + yy + N0 + N%d; }\n" % (b - 1)),
+    ("pp_churn_redefine_after_undef", None, lambda a, b: _r(a, lambda i: "#define X%d %d\n#undef X%d\n" % (i, i, i)) +
+        _r(b, lambda i: "#define X%d %d\n" % (i % a, i)) + "int zz = X0;\n"),
+    ("scope_churn_blocks_then_locals", None, lambda a, b: "int f(int x) {\n  int r = 0;\n" + _r(a, lambda i: "  { int t%d = %d; r += t%d; }\n" % (i, i, i)) +
+        _r(b, lambda i: "  int v%d = %d;\n" % (i, i)) + "  return r + v0 + v%d;\n}\n" % (b - 1)),
+    ("include_guarded_then_defines", None, lambda a, b: "#include \"c13_inc.h\"\n" * a + _r(b, lambda i: "#define N%d %d\n" % (i, i)) +
+        "int zz = INC_VAL + N%d;\n" % (b - 1)),
+]
+
+
+def rep_case(fam, *ns):
+    """-> (bytes, opts)"""
+    r = fam[2](*ns)
+    if isinstance(r, tuple):
+        return r[0].encode(), list(r[1])
+    return r.encode(), []
+
+
+# families whose cost in chibicc grows faster than n^2 are enumerated up to a stated smaller maximum (a slow answer is
+# not a verdict; the CPU limit must not be approached by the enumeration itself)
+REP_NMAX = {"pp_nested_invocation": 257}
+
+
+def rep_points(kind, famname, tier):
+    if kind == "rep":
+        return [(n,) for n in REP_N[tier] if n <= REP_NMAX.get(famname, 1 << 30)]
+    return [(a, b) for a in REP2_N[tier] for b in REP2_N[tier]]
+
+
+_GCC_VERDICT = {}
+
+
+def gcc_accepts(data, opts, wd):
+    """second oracle for 'this generated unit is a valid program' (only asked when chibicc rejects one)"""
+    key = hashlib.blake2b(data + repr(opts).encode(), digest_size=16).digest()
+    if key not in _GCC_VERDICT:
+        p = os.path.join(wd, "gccref.c")
+        with open(p, "wb") as f:
+            f.write(data)
+        gopts = [o for o in opts if o[:2] in ("-D", "-U", "-I")]
+        for i, o in enumerate(opts):
+            if o == "-include":
+                gopts += ["-include", opts[i + 1]]
+        st, out, err = core.run_limited(["gcc", "-std=gnu11", "-fsyntax-only", "-w", "-ftrack-macro-expansion=0"] + gopts + ["gccref.c"],
+                                        cwd=wd, timeout=300)
+        _GCC_VERDICT[key] = (st == 0)
+    return _GCC_VERDICT[key]
 
 
 # ---------------------------------------------------------------------------------------------------------
@@ -352,6 +746,13 @@ def _work(item):
     elif spec[0] == "probe":
         cases = [("p%d" % i, src, o) for i, o in enumerate(OPTION_PROBES)]
         ngen = len(cases)
+    elif spec[0] in ("rep", "rep2"):
+        fam = (REP_FAMILIES if spec[0] == "rep" else REP2_FAMILIES)[spec[1]]
+        for ns in rep_points(spec[0], fam[0], spec[2]):
+            data, opts = rep_case(fam, *ns)
+            ngen += 1
+            cases.append(("n" + "x".join(map(str, ns)), data, opts))
+            hashes.append(int.from_bytes(hashlib.blake2b(data + repr(opts).encode(), digest_size=8).digest(), "big"))
     else:
         for vid, data in gen_variants(src, spec):
             ngen += 1
@@ -364,6 +765,7 @@ def _work(item):
     res = run_batch(runner, chibicc, wd, cases, asmdir) if cases else []
     counts = {"accepted": 0, "rejected": 0, "crash": 0, "timeout": 0}
     anomalies, msgs, eof_diag, asm_checked, asm_skipped = [], set(), 0, 0, 0
+    rep_judged_valid = rep_ref_rejected = rep_beyond_limit_rejected = 0
     for (cid, data, opts), (rid, status, err, ah, anew, tr) in zip(cases, res):
         if rid != cid:
             raise core.HarnessError("c13_run result order mismatch")
@@ -398,9 +800,26 @@ def _work(item):
             anomalies.append({"seed": name, "valid": valid, "vid": cid, "cls": "valid-rejected",
                               "detail": caret_msg(err), "data": data, "opts": opts,
                               "err": err[:600].decode("utf-8", "replace"), "trace": "", "status": status})
+        elif spec[0] in ("rep", "rep2"):
+            # generated units are valid programs: inside the C11 minimum translation limit of the repeated construct
+            # a rejection (even with a located diagnostic) is reported, provided gcc accepts the same unit
+            limit = fam[1]
+            inside = limit is None or (limit > 0 and max(int(x) for x in cid[1:].split("x")) <= limit)
+            if outcome == "accepted":
+                rep_judged_valid += 1
+            elif not inside:
+                rep_beyond_limit_rejected += 1
+            elif not gcc_accepts(data, opts, wd):
+                rep_ref_rejected += 1
+            else:
+                rep_judged_valid += 1
+                anomalies.append({"seed": name, "valid": valid, "vid": cid, "cls": "valid-rejected",
+                                  "detail": caret_msg(err), "data": data, "opts": opts,
+                                  "err": err[:600].decode("utf-8", "replace"), "trace": "", "status": status})
     return {"name": name, "spec": spec, "generated": ngen, "run": len(cases), "counts": counts, "anomalies": anomalies,
             "msgs": msgs, "hashes": hashes, "eof_diag": eof_diag, "asm_checked": asm_checked,
-            "asm_skipped": asm_skipped,
+            "asm_skipped": asm_skipped, "rep_judged_valid": rep_judged_valid, "rep_ref_rejected": rep_ref_rejected,
+            "rep_beyond_limit_rejected": rep_beyond_limit_rejected,
             "seed_outcomes": [(c[0], r[1]) for c, r in zip(cases, res)] if spec[0] == "seed" else None}
 
 
@@ -472,6 +891,11 @@ def signature(sym, an):
         return "C13|%s|%s" % (over or SIGNAMES.get(n, "SIG%d" % n), site)
     if cls == "timeout":
         fr = sym.frames(an["trace"])
+        if fr and "main" not in fr and "cc1" not in fr:
+            # the frame walk was cut off inside a deep recursion: which frames it holds depends on the instant of
+            # the signal, so name the recursion cycle (as for a stack overflow) instead of the outermost frames
+            cyc = sorted(set(f for f in fr if fr.count(f) >= 3)) or sorted(set(fr))
+            return "C13|hang|recursion:%s" % "+".join(cyc[:3])
         outer = [f for f in reversed(fr) if f not in ("main", "cc1", "_start")][:3]
         return "C13|hang|%s" % (">".join(outer) or "unknown-site")
     if cls == "internal-error":
@@ -481,6 +905,27 @@ def signature(sym, an):
     if cls in ("silent-failure", "exit0-no-output"):
         return "C13|%s|%s|%s" % (cls, an["status"], "options" if an["opts"] else edit_class(an["vid"]))
     return "C13|%s|%s" % (cls, detail)
+
+
+STACK_ATTEMPTS = 8
+
+
+def prepare_wd(wd):
+    os.makedirs(wd, exist_ok=True)
+    for f in os.listdir(os.path.join(SEEDS, "aux")):
+        shutil.copy(os.path.join(SEEDS, "aux", f), wd)
+
+
+def recapture_stack(sym, runner, chibicc, wd, data, opts, status):
+    """The ptrace observer occasionally misses the stack of a dying child (empty or `notrace` trace).  The crash is
+    real, but its signature must not depend on that: the case is re-run alone (same limits, same auxiliary files)
+    until a run that dies from the same signal yields a stack.  -> trace text or None"""
+    prepare_wd(wd)
+    for attempt in range(STACK_ATTEMPTS):
+        r = run_batch(runner, chibicc, wd, [("c", data, opts)], "-")[0]
+        if r[1] == status and sym.frames(r[5]):
+            return r[5]
+    return None
 
 
 def case_signatures(chibicc, tree, runner, wd, data, opts, asmdir, sym=None, confirm=True):
@@ -504,6 +949,8 @@ def case_signatures(chibicc, tree, runner, wd, data, opts, asmdir, sym=None, con
             elif null_operand(p):
                 an = ("asm-null-operand", null_operand(p))
     if an:
+        if an[0] == "signal" and not sym.frames(tr):
+            tr = recapture_stack(sym, runner, chibicc, os.path.join(wd, "retrace"), data, opts, status) or tr
         sigs.append(signature(sym, {"cls": an[0], "detail": an[1], "status": status, "trace": tr, "opts": opts,
                                     "vid": "x", "seed": "?"}))
     return sigs, status, err
@@ -533,7 +980,9 @@ def replay_case(d, chibicc, tree):
         print("expected %s\nobserved %s status=%s\n%s" % (want, sigs, status, err[:300].decode("utf-8", "replace")))
         if want.startswith("C13|valid-rejected|"):
             return 1 if status != "E0" else 0
-        return 1 if want in sigs else 0
+        # a death that goes away with 4x the memory is reported as out-of-memory-<signal>; the replay reproduces the
+        # death under the standard limit
+        return 1 if want.replace("C13|out-of-memory-", "C13|", 1) in sigs else 0
     finally:
         shutil.rmtree(tmp, ignore_errors=True)
 
@@ -586,6 +1035,7 @@ def run(ctx):
                  else list(range(len(FULL_ALPHABET))))
 
     items = []
+    num_positions, num_alpha_sizes = 0, []
     for name, valid, src in seeds:
         ntok = len(lex(src)[0])
         items.append((name, valid, src, ("seed",), len(OPTION_SETS)))
@@ -596,12 +1046,26 @@ def run(ctx):
             for part in core.chunks(alpha_idx, 40):
                 items.append((name, valid, src, ("tok1", tuple(part)), ntok * (3 + 2 * len(part))))
         items.append((name, valid, src, ("byte", tier), len(src) * (len(BYTE_ALPHABET[tier]) + 1)))
+        toks = lex(src)[0]
+        npos = sum(1 for t in toks if is_number(t))
+        if npos:
+            nalpha = len(num_alphabet(tier, [v for v in map(int_value, toks) if v is not None]))
+            items.append((name, valid, src, ("num", tier), npos * nalpha))
+            num_positions += npos
+            num_alpha_sizes.append(nalpha)
         if ntok <= DEV2_MAXTOK[tier]:
             n1 = ntok * (3 + 2 * len(DEV2_ALPHABET)) + len(DEV2_ALPHABET)
             nsl = 4
             for k in range(nsl):
                 items.append((name, valid, src, ("tok2", k, nsl), n1 * n1 // nsl))
     items.append(("probe", True, PROBE_UNIT, ("probe",), len(OPTION_PROBES)))
+    # repetition dimension: one item per family (all its n); scheduled first (the n = 1000 units are the slowest cases)
+    for k, fam in enumerate(REP_FAMILIES):
+        items.append(("rep_" + fam[0], True, b"", ("rep", k, tier), 10 ** 6 + len(rep_points("rep", fam[0], tier))))
+    for k, fam in enumerate(REP2_FAMILIES):
+        items.append(("rep_" + fam[0], True, b"", ("rep2", k, tier), 10 ** 6 + len(rep_points("rep2", fam[0], tier))))
+    if len(set(f[0] for f in REP_FAMILIES + REP2_FAMILIES)) != len(REP_FAMILIES) + len(REP2_FAMILIES):
+        raise core.HarnessError("duplicate repetition family name")
     # largest first for load balance; VERIF_SEED only permutes the order of equal-sized items
     items.sort(key=lambda it: (-it[4], hashlib.sha1((it[0] + repr(it[3]) + str(ctx.seed)).encode()).hexdigest()))
     args = [(ctx.chibicc, runner, os.path.join(ctx.work, "w%d" % i), it[0], it[1], it[2], it[3])
@@ -660,6 +1124,7 @@ def run(ctx):
     tot = {"accepted": 0, "rejected": 0, "crash": 0, "timeout": 0}
     nrun = ngen = eof_diag = asm_checked = asm_skipped = 0
     distinct, msgs, anomalies = set(), set(), []
+    rep_tot = {"rep_judged_valid": 0, "rep_ref_rejected": 0, "rep_beyond_limit_rejected": 0}
     by_family = {}
     seed_status = {}
     for r in results:
@@ -670,6 +1135,8 @@ def run(ctx):
         eof_diag += r["eof_diag"]
         asm_checked += r["asm_checked"]
         asm_skipped += r["asm_skipped"]
+        for k in rep_tot:
+            rep_tot[k] += r[k]
         distinct.update(r["hashes"])
         msgs |= r["msgs"]
         anomalies += r["anomalies"]
@@ -678,6 +1145,9 @@ def run(ctx):
             seed_status[r["name"]] = r["seed_outcomes"]
     if nrun == 0 or tot["accepted"] == 0 or tot["rejected"] == 0:
         raise core.HarnessError("vacuous run: %s" % tot)
+    if ctx.exhaustive and (by_family.get("num", 0) < 1000 or by_family.get("rep", 0) < 500 or by_family.get("rep2", 0) < 100
+                           or rep_tot["rep_judged_valid"] < (by_family["rep"] + by_family["rep2"]) // 2):
+        raise core.HarnessError("number / repetition dimension degenerate: %s %s" % (by_family, rep_tot))
     nvalid = sum(1 for s in seeds if s[1])
     invalid_accepted = sorted(n for n, st in seed_status.items() if n.startswith("i_") and st[0][1] == "E0")
 
@@ -722,16 +1192,17 @@ def run(ctx):
     aux = {f: open(os.path.join(SEEDS, "aux", f)).read() for f in sorted(os.listdir(os.path.join(SEEDS, "aux")))}
     # The ptrace observer occasionally misses the stack of a dying child (empty trace): such a crash is real, but its
     # signature must be derived deterministically, so those cases are re-run alone until a stack is captured.
-    retraced = 0
+    retraced = lost = 0
     for k, a in enumerate(anomalies):
         if a["cls"] == "signal" and not sym.frames(a["trace"]):
-            for attempt in range(4):
-                r = run_batch(runner, ctx.chibicc, os.path.join(ctx.work, "retrace%d" % k), [("c", a["data"], a["opts"])], "-")[0]
-                if sym.frames(r[5]):
-                    a["trace"] = r[5]
-                    retraced += 1
-                    break
-    ctx.cover(crash_stacks_recaptured=retraced)
+            tr = recapture_stack(sym, runner, ctx.chibicc, os.path.join(ctx.work, "retrace%d" % k), a["data"], a["opts"],
+                                 a["status"])
+            if tr:
+                a["trace"] = tr
+                retraced += 1
+            else:
+                lost += 1
+    ctx.cover(crash_stacks_recaptured=retraced, crash_stacks_not_capturable=lost)
     bysig = {}
     for a in anomalies:
         sig = signature(sym, a)
@@ -753,9 +1224,18 @@ def run(ctx):
 
     ctx.cover(evaluations=nrun, distinct_nontrivial=len(distinct), generated_variants=ngen,
               rule=("a case is one (input bytes, option list); non-trivial = its bytes differ from every other case "
-                    "counted (64-bit content hash) - seeds themselves plus every deviation-1/2 token edit and byte "
-                    "edit that changes the seed; each case is one real `chibicc -cc1` process judged by wait status, "
+                    "counted (64-bit content hash) - seeds themselves plus every deviation-1/2 token edit, numeric-value "
+                    "edit and byte edit that changes the seed, plus every repetition unit (family x n); each case is one real `chibicc -cc1` process judged by wait status, "
                     "stderr location and `as`"),
+              number_positions=num_positions, number_alphabet_fixed=len(num_alphabet(tier, [])),
+              number_alphabet_per_seed_min_max=[min(num_alpha_sizes), max(num_alpha_sizes)],
+              number_alphabet=("thorough: NUM_VALUES + negations + NUM_HEX + (m-1, m, m+1, negated too) for every integer "
+                               "literal m of the seed; quick: {0, 1, -1, 2^31, 2^32-1, 2^32, 2^64-1} + (m-1, m, m+1)"),
+              repetition_families=len(REP_FAMILIES), repetition_two_phase_families=len(REP2_FAMILIES),
+              repetition_counts=REP_N[tier], repetition_two_phase_counts=REP2_N[tier], repetition_family_max=REP_NMAX,
+              repetition_units_accepted_or_confirmed_valid=rep_tot["rep_judged_valid"],
+              repetition_units_rejected_beyond_c11_limit=rep_tot["rep_beyond_limit_rejected"],
+              repetition_units_rejected_also_by_gcc=rep_tot["rep_ref_rejected"],
               seeds_valid=nvalid, seeds_invalid=len(seeds) - nvalid, token_alphabet=len(alpha_idx),
               byte_alphabet=len(BYTE_ALPHABET[tier]), option_sets=len(OPTION_SETS), option_probes=len(OPTION_PROBES), driver_probes=driver_runs,
               runs_by_family=by_family, accepted=tot["accepted"], rejected_with_diagnostic=tot["rejected"],
@@ -765,16 +1245,25 @@ def run(ctx):
               diag_sites_unreached=[f for f in fmts if f not in reached],
               invalid_seeds_accepted_no_verdict=invalid_accepted, items_total=len(items), items_done=done_items,
               bounds_completed={"deviation0": True, "deviation1_tokens": len(alpha_idx), "byte_edits": True,
-                                "deviation2_max_tokens": DEV2_MAXTOK[tier]} if ctx.exhaustive else "see notes")
+                                "deviation2_max_tokens": DEV2_MAXTOK[tier], "numeric_positions": "all",
+                                "repetition_max_n": max(REP_N[tier])} if ctx.exhaustive else "see notes")
     for name in ("v_switch", "i_pp_paste_invalid"):
         src = dict((s[0], s[2]) for s in seeds)[name]
         vs = list(gen_variants(src, ("tok1", tuple(alpha_idx[:3]))))
         ctx.sample({"seed": name, "edit": vs[len(vs) // 2][0], "variant": vs[len(vs) // 2][1].decode("latin1")})
+    vs = list(gen_variants(dict((s[0], s[2]) for s in seeds)["v_num_switch_unsigned"], ("num", tier)))
+    ctx.sample({"seed": "v_num_switch_unsigned", "edit": vs[len(vs) // 2][0], "variant": vs[len(vs) // 2][1].decode("latin1")})
+    fam = [f for f in REP2_FAMILIES if f[0] == "pp_churn_same_name"][0]
+    ctx.sample({"family": fam[0], "n": [2, 3], "unit": rep_case(fam, 2, 3)[0].decode()})
+    fam = [f for f in REP_FAMILIES if f[0] == "expr_call_nested_pending_args"][0]
+    ctx.sample({"family": fam[0], "n": [3], "c11_minimum_limit": fam[1], "unit": rep_case(fam, 3)[0].decode()})
     ctx.assume("the assembler, the kernel's wait status and /proc/<pid>/maps are trusted")
     ctx.assume("inputs further than the stated deviations from the seed corpus are not explored; rejection of valid "
                "programs is judged only for the valid seeds (no verdict from gcc on edited programs)")
     ctx.assume("a diagnostic on line (last line + 1) is accepted as 'existing': chibicc places its EOF token there")
     ctx.assume("RLIMIT_AS 2 GB / CPU 5 s per run; a first-pass timeout counts only if it persists with 10x limits")
+    ctx.assume("repetition units beyond the C11 5.2.4.1 minimum translation limit of the repeated construct may be "
+               "rejected (with a located diagnostic); inside the limit a rejection counts only when gcc accepts the unit")
 
 
 if __name__ == "__main__":
